@@ -130,6 +130,11 @@ fn emit_viol(engine: &str, v: &Viol, seed: u64, hist: u64, profile: &str, extra:
     );
 }
 
+pub fn cross_json(ex: &Explorer) -> String {
+    let m = format!("{{{}}}", ex.cross.iter().map(|(k, v)| format!("{}:{}", jstr(k), v)).collect::<Vec<_>>().join(","));
+    J::new().raw("counts", m).raw("samples", jarr(ex.cross_samples.iter().map(|s| jstr(s)))).render()
+}
+
 pub fn stat_props(a: &Args) -> Vec<usize> {
     a.get("stat-props").map(|s| s.split(',').filter_map(|x| x.parse().ok()).collect()).unwrap_or_default()
 }
@@ -157,6 +162,7 @@ fn engine_explore(a: &Args) {
         }
     }
     ex.trace_digest = a.flag("digest");
+    ex.decides = stat_props(a);
     ex.cmp_every = a.num("cmp-every", 7);
     let mut nviol = 0;
     let mut per_monitor: std::collections::BTreeMap<(usize, &'static str), u64> = Default::default();
@@ -186,6 +192,7 @@ fn engine_explore(a: &Args) {
             .n("violations", nviol)
             .n("swallowed_hint_failures", ex.swallowed_ok)
             .raw("cov", cov_json(&ex.cov, &stat_props(a), a.flag("announce")))
+            .raw("cross", cross_json(&ex))
             .render(),
     );
 }
